@@ -8,6 +8,7 @@ import (
 	"runtime"
 	"sort"
 	"strconv"
+	"strings"
 	"testing"
 	"time"
 )
@@ -49,6 +50,7 @@ type Report struct {
 	Idx         uint64          `json:"idx"`
 	Tier        string          `json:"tier"`
 	NumCPU      int             `json:"numcpu"`
+	Level       string          `json:"level,omitempty"` // "" = L1/L2 (in-process, simulated), "L3" = real binary as a child process
 	ShrinkSteps int             `json:"shrink_steps"`
 	Case        json.RawMessage `json:"case"`
 	Original    json.RawMessage `json:"original_case,omitempty"`
@@ -84,6 +86,9 @@ func envU64(name string, def uint64) uint64 {
 	}
 	return def
 }
+
+// l3Scenarios can run unchanged against the real binary (no in-process-only faults, no removal veto needed).
+var l3Scenarios = map[string]bool{"cachehist": true, "graph": true, "vars": true, "actions": true, "crash": true}
 
 func knownKey(prop, pred, sig string) string { return prop + "|" + pred + "|" + sig }
 
@@ -188,6 +193,7 @@ func TestSim(t *testing.T) {
 
 	distinct := map[string]struct{}{}
 	knownSeen := map[string]int{}
+	l3Every := envInt("SIM_L3_EVERY", 0)
 	for idx := from; idx < to; idx += stride {
 		if time.Since(start) > deadline {
 			out.Truncated = true
@@ -237,13 +243,39 @@ func TestSim(t *testing.T) {
 				out.CanaryBad = fmt.Sprintf("idx %d: %s", idx, firstDiff(res.Events, again.Events))
 			}
 		}
+		// level L3: the same case against the real binary (fidelity: main.go, real exit status, real process)
+		if l3Every > 0 && l3Scenarios[scName] && SpokBin != "" && (idx/stride)%l3Every == 0 && res.first(prop) == nil && res.Abandoned == "" {
+			w.Level = "L3"
+			w.Reset()
+			res3 := sc.Exec(w, c, prop)
+			out.Counters["l3:cases"]++
+			out.Counters["l3:invocations"] += res3.Ops
+			for k, v := range res3.Counters {
+				if strings.HasPrefix(k, "fault_fired:") || strings.HasPrefix(k, "probe:") {
+					out.Counters["l3:"+k] += v
+				}
+			}
+			for _, d := range res3.Distinct {
+				if strings.HasPrefix(d, "L3|") {
+					distinct[d] = struct{}{}
+				}
+			}
+			if res3.Abandoned != "" {
+				out.Counters["l3:abandoned"]++
+			}
+			if res3.first(prop) != nil {
+				res = res3 // handled below, at level L3
+			} else {
+				w.Level = ""
+			}
+		}
 		if v := res.first(prop); v != nil {
 			// persist the unminimised violation first: if a shrink candidate kills the
 			// process (a panic in a goroutine of the system under test) the driver still has it
 			{
 				cj, _ := json.Marshal(c)
 				out.Violation = &Report{Property: v.Property, Scenario: scName, Predicate: v.Predicate, Message: v.Message + " [not minimised: the process died while shrinking]", Signature: v.Signature,
-					Seed: seed, Idx: uint64(idx), Tier: tier, NumCPU: w.NumCPU, Case: cj, EventDigest: res.EventDigest(), Events: res.Events}
+					Seed: seed, Idx: uint64(idx), Tier: tier, NumCPU: w.NumCPU, Level: w.Level, Case: cj, EventDigest: res.EventDigest(), Events: res.Events}
 				writeOut()
 				out.Violation = nil
 				if jf != nil {
@@ -266,12 +298,13 @@ func TestSim(t *testing.T) {
 					out.Known = append(out.Known, line)
 				}
 				knownSeen[line]++
+				w.Level = ""
 				continue
 			}
 			caseJSON, _ := json.Marshal(min)
 			origJSON, _ := json.Marshal(c)
 			rep := &Report{Property: mv.Property, Scenario: scName, Predicate: mv.Predicate, Message: mv.Message, Signature: mv.Signature,
-				Seed: seed, Idx: uint64(idx), Tier: tier, NumCPU: w.NumCPU, ShrinkSteps: steps, Case: caseJSON, Original: origJSON,
+				Seed: seed, Idx: uint64(idx), Tier: tier, NumCPU: w.NumCPU, Level: w.Level, ShrinkSteps: steps, Case: caseJSON, Original: origJSON,
 				EventDigest: minRes.EventDigest(), Events: minRes.Events}
 			out.Violation = rep
 			if replayDir != "" {
@@ -340,6 +373,10 @@ func replayFile(t *testing.T, w *World, sc Scenario, path, prop string) *ReplayV
 	}
 	if prop == "" {
 		prop = rep.Property
+	}
+	w.Level = rep.Level
+	if rep.Level == "L3" && SpokBin == "" {
+		panic(harnessError{"replay of an L3 violation needs the spok binary (SIM_SPOK_BIN)"})
 	}
 	w.Reset()
 	res := sc.Exec(w, c, prop)
